@@ -143,7 +143,7 @@ def pp(e):
         _need(e[1], 10, k)
     elif k == "pow":
         _need(e[1], 10, k)
-        if e[2][0] not in ("int", "var", "float") and not (e[2][0] == "neg" and e[2][1][0] == "int"):
+        if e[2][0] not in ("int", "var", "float", "paren") and not (e[2][0] == "neg" and e[2][1][0] in ("int", "paren")):
             raise Unprintable("pow exponent")
     elif k in ("idx", "slice", "field", "mcall", "smeth", "tfield", "try"):
         base = e[2] if k in ("idx", "slice", "smeth") else e[1]
